@@ -292,6 +292,7 @@ func c14(p *model.Prog, r *report.Result) {
 	c14r89(p, r)
 	c14r1011(p, r)
 	c14r12(p, r)
+	c14r13(p, r)
 }
 
 // c14r6 is defined in c14_taint.go once built; until then it records that R6 is not decided.
